@@ -2,7 +2,7 @@
 enumerated by TLC out of specs/StmtShapes.tla, and runs them on real SQLite engines.
 
 A shape travels as its name  "k|f|c|w|d|o"  (StmtShapes!Name):
-  k  sel | orm | ins | upd | del | lam | ddl    statement kind (ddl: CREATE TABLE d)
+  k  sel | orm | ins | upd | del | lam | ddl | txt    statement kind (ddl: CREATE TABLE d; txt: TextualSelect, o = named | pos)
   f  a | join | outer | s1 | xjoin              FROM: a / a JOIN b / a LEFT JOIN b / s1.a / a JOIN s1.a
   c  none | eq | in | eqand | orin              criteria (lam: lscalar | llist | lcol | ltab | lmulti | lwhere | lcrit | lexpr)
   w  none | subq | cte | union | exists         wrapping
@@ -18,6 +18,7 @@ import warnings
 
 import sqlalchemy as sa
 from sqlalchemy import event
+from sqlalchemy.sql.selectable import TextualSelect
 from sqlalchemy.orm import Session, defer, joinedload, registry, relationship, selectinload, undefer, with_loader_criteria
 
 NROWS = 5
@@ -169,6 +170,12 @@ def build(sh, val, T=None):
     a = T("s1") if f == "s1" else T(None)
     if k == "ddl":
         return sa.schema.CreateTable(w.dtabs[a.schema])
+    if k == "txt":
+        # the column names in the text (q, r) match none of the columns given: only positional matching finds them
+        t = sa.text("select id as q, x as r from a" + (" where x = :a" if c == "eq" else "") + " order by id")
+        if c == "eq":
+            t = t.bindparams(sa.bindparam("a", none0(val["a"]), type_=sa.Integer))
+        return TextualSelect(t, [w.b.c.id, w.b.c.z], positional=(o == "pos"))
     b = w.b
     bval = none0(val["b"])
     if k == "ins":
@@ -309,7 +316,7 @@ def is_orm(sh):
 def run(conn, log, sh, stmt, opts):
     """execute inside a transaction that is always rolled back; -> dict(out, stmts=[(sql, params, hit)], rows, rc)"""
     n0 = len(log.items)
-    out, rows, rc = "ok", None, -1
+    out, rows, rc, lk = "ok", None, -1, "-"
     try:
         try:
             if sh["k"] == "ddl":
@@ -328,7 +335,13 @@ def run(conn, log, sh, stmt, opts):
             else:
                 r = conn.execute(stmt, execution_options=opts)
                 if r.returns_rows:
-                    rows = [tuple(x) for x in r.all()]
+                    raw = r.all()
+                    rows = [tuple(x) for x in raw]
+                    if sh["k"] == "txt" and raw:
+                        try:
+                            lk = "ok" if raw[0]._mapping[world().b.c.z] == raw[0][1] else "wrong value"
+                        except sa.exc.NoSuchColumnError:
+                            lk = "NoSuchColumnError"
                 else:
                     rows = []
                 if sh["k"] in ("ins", "upd", "del"):
@@ -339,7 +352,7 @@ def run(conn, log, sh, stmt, opts):
             out = type(e).__name__
     finally:
         conn.rollback()
-    return dict(out=out, stmts=[(s_, tuple(p_), h_) for s_, p_, h_ in log.items[n0:]], rows=rows, rc=rc)
+    return dict(out=out, stmts=[(s_, tuple(p_), h_) for s_, p_, h_ in log.items[n0:]], rows=rows, rc=rc, lk=lk)
 
 
 def run_literal(conn, sh, stmt, smap):
